@@ -76,6 +76,8 @@ PL_Regions == [A1 |-> SL!Str("A", "1"), A2 |-> SL!Pair(SL!IntN(1), SL!IntN(2)), 
                all |-> SL!All, plate |-> SL!All,
                list2 |-> SL!Lst(<<SL!Str("A", "1"), SL!Pair(SL!IntN(2), SL!IntN(2))>>),
                list2b |-> SL!Lst(<<SL!Pair(SL!Lbl("A"), SL!IntN(2)), SL!Str("B", "1")>>),
+               list1 |-> SL!Lst(<<SL!Str("B", "2")>>),         \* a list of ONE well: shape <<1>>, not the single well B2 (shape <<1, 1>>)
+               list1q |-> SL!Lst(<<SL!Pair(SL!IntN(1), SL!IntN(1))>>),
                \* narrowed selections: plate[:][1::2] (= row 2) and plate[:, 1:][0:2:2, 1:] (= well A,2)
                narrowB |-> SL!Sub(SL!All, SL!PySl(1, -1, 2), SL!PyAll),
                narrowA2 |-> SL!Sub(SL!Pair(SL!All, SL!Slc(SL!IntN(1), SL!None, 0)), SL!PySl(0, 2, 2), SL!PySl(1, -1, 0))]
@@ -92,6 +94,8 @@ PL_Forms == <<
   F4("p", "row1", "p", "B2"), F4("p", "row1", "p", "A1"), F4("p", "row1", "p", "row2"), F4("p", "row1", "p", "row1"),
   F4("p", "col1", "p", "col2"), F4("p", "row1", "p", "col1"), F4("p", "all", "p", "row1"),
   F4("p", "list2", "p", "list2b"), F4("p", "list2", "p", "row1"), F4("p", "col2", "p", "col1"),
+  \* one-element lists against several wells (no pairing form: rejected) and against one another (element-wise)
+  F4("p", "list1", "p", "row1"), F4("p", "row1", "p", "list1"), F4("p", "list1", "q", "all"), F4("p", "list1", "q", "list1q"),
   \* cross plate
   F4("p", "row1", "q", "all"), F4("p", "A2", "q", "plate"), F4("p", "col1", "q", "all"), F4("q", "all", "p", "row2"),
   F4("q", "plate", "p", "B1"), F4("p", "plate", "q", "plate"),
